@@ -220,9 +220,12 @@ class Minimiser:
 
                     def _shape(c):
                         t = _re.sub(r"\s+", "", str(c))
-                        return (not z3.is_not(c)) and "gradtol" in t and t.startswith("truthy/1(call/1(attr.all/1(lt/2(xp.sum[axis]/2(")
+                        return (not z3.is_not(c)) and "gradtol" in t and t.startswith(("truthy/1(call/1(attr.all/1(lt/2(xp.sum[axis]/2(", "truthy/1(call/1(attr.all/1(lt/2(call/1(attr.sum/1("))  # xp.sum(norm_g, axis=0) or norm_g.sum(...)
 
                     tested = any(_shape(c) for c in r.path.pc)
+                    import os as _os
+                    if _os.environ.get("C14_DEBUG_PC"):
+                        print("PC:", [_re.sub(r"\s+", "", str(c))[:160] for c in r.path.pc if "gradtol" in str(c)], flush=True)
                     goals.append(("converged with a gradient tolerance set => the gradient norms were below it", z3.BoolVal(bool(tested))))
             for label, g in goals:
                 v, model = check_valid(w, r.path.pc, g)
